@@ -254,7 +254,7 @@ def routeVerdict (m : Mon) (cc : World.CliConf) (sc : World.SrvConf) (sname : St
 
 /-- C08, the other direction: a request that nothing stands in the way of (first use of its identifier, acceptable, nothing in it that a
     later stage may refuse, no rewriting before the realm is chosen) and whose first matching realm lists servers for its type - all of them
-    present, none of them the sender under loop prevention, all with plenty of free identifiers - is forwarded -/
+    present and connected, none of them the sender under loop prevention, all with plenty of free identifiers - is forwarded -/
 def mustRouteVerdict (m : Mon) (cc : World.CliConf) (pkt : Bytes) (out : String) (trToks : List String) : String :=
   let as := attrsOf pkt
   let ttlT := m.cfg.opts.ttlType
@@ -273,6 +273,8 @@ def mustRouteVerdict (m : Mon) (cc : World.CliConf) (pkt : Bytes) (out : String)
            match m.cfg.srvs[i]? with
            | some (name, sc, _) =>
              !(sections out).any (fun sec => sec.startsWith ("S:" ++ name ++ ":-")) &&
+             -- (… and connected: which server a realm yields, if any, while connections are being set up or have failed is C09's matter)
+             (sections out).any (fun sec => sec.startsWith ("S:" ++ name ++ " ") && (sec.splitOn " ").contains "st=2") &&
              (((m.slots.find? (·.1 = name)).map (·.2)).getD []).length < 200 &&
              !World.loopPrevents m.cfg.opts cc sc
            | none => false
@@ -285,6 +287,7 @@ def localVerdict (m : Mon) (cc : World.CliConf) (rq out : Bytes) (trToks : List 
   -- whatever the realm says, a reply the proxy makes itself is of the kind that answers the request
   if codeOf rq = 40 && codeOf out != 42 then "bad C05:disconnect-request-not-answered-with-disconnect-nak"
   else if codeOf rq = 43 && codeOf out != 45 then "bad C05:coa-request-not-answered-with-coa-nak"
+  else if (codeOf rq = 40 || codeOf rq = 43) && firstOf 101 out != some [0, 0, 1, 150] then "bad C05:nak-without-error-cause-406"
   else if codeOf rq = 12 && codeOf out != 2 then "bad C05:status-server-not-answered-with-access-accept"
   else if codeOf rq = 1 && codeOf out != 3 then "bad C08:access-request-answered-locally-with-something-other-than-access-reject"
   else if codeOf rq = 4 && codeOf out != 5 then "bad C08:accounting-request-answered-locally-with-something-other-than-accounting-response"
@@ -494,6 +497,14 @@ def monOp0 (m : Mon) (op : String) (args : List String) (impl : List String) (tr
             "bad C10:retransmission-within-DuplicateInterval-forwarded-again"
           else if tablesFull && fwdToks.isEmpty && !qgrew && acceptable && !seenIdBefore && cachedIds.contains (idOf pkt).toNat then
             "bad C11:request-kept-in-the-duplicate-cache-though-no-identifier-was-free"
+          -- C11: a request arriving from one client gives up, at most, that client's own earlier requests: an identifier held by
+          -- another client's request - or by a status-server probe - is not released by it
+          else if (m.slots.any fun (sname, before) =>
+                     let after := (((digestSlots out).find? (·.1 = sname)).map (·.2)).getD []
+                     (sections out).any (fun sec => sec.startsWith ("S:" ++ sname ++ " ")) &&
+                     before.any fun (i, _) => !(after.any (·.1 = i)) &&
+                       !(m.fwds.any fun f => f.srv = sname && f.slot = i && f.client = k)) then
+            "bad C11:identifier-held-by-another-clients-request-or-a-probe-released-by-a-request"
           else if (!fwdToks.isEmpty || qgrew) && !acceptable then "bad C05:unacceptable-request-forwarded-or-answered"
           -- C05: only Access-, Accounting-, Status-Server, Disconnect- and CoA-Requests are ever answered or forwarded
           else if (!fwdToks.isEmpty || qgrew) && ![1, 4, 12, 40, 43].contains (codeOf pkt).toNat then
@@ -657,7 +668,7 @@ def monOp0 (m : Mon) (op : String) (args : List String) (impl : List String) (tr
         | _, _ => m
       (resync m out, verdict)
     | _, _ => (m, "bad-op")
-  | "srvconn", name :: _ =>
+  | "srvconn", name :: evs0 =>
     -- the proxy as stream client: every packet the real reader took off the connection is judged like a `reply`, one after the
     -- other (C04/C02/C10), and - C04 on stream transports - a packet that fails authentication resets the connection
     match srvConfOf m name with
@@ -715,6 +726,20 @@ def monOp0 (m : Mon) (op : String) (args : List String) (impl : List String) (tr
            | _ => (m, "bad output-shape", rest'))
         | _, _ => (m, "bad output-shape", rest')
       let (m, v, _) := toks.foldl step (m, "ok", toks)
+      -- C16: what the peer wrote on a connection that stayed up throughout - whole messages, no silence, no end of stream - has all been
+      -- taken off it, message by message, by the time the reader waits again (however the writes reached it)
+      let v := if v ≠ "ok" then v else
+        match parseEvs evs0 with
+        | some evs =>
+          if evs.any (fun e => e == Stream.Ev.stall || e == Stream.Ev.eof) || toks.any (fun t => t.startsWith "slept:" || t = "reconnected") then v
+          else
+            let data := Stream.dataOf evs
+            let frames := (Stream.framesOut (data.length + 1) data).filterMap fun | .pkt b => some b | _ => none
+            let got := toks.filterMap fun t => if t.startsWith "got:" then ofHex (t.drop 4).toString else none
+            if (frames.map (·.length)).foldl (· + ·) 0 = data.length && got != frames then
+              "bad C16:messages-written-on-a-connection-that-stayed-up-were-not-all-taken-off-it"
+            else v
+        | none => v
       -- every re-established connection lets everything outstanding be sent again
       let m : Mon := if toks.contains "reconnected" then { m with tx := m.tx.filter (·.1 ≠ name), resetPending := name :: m.resetPending.filter (· ≠ name) }
                      else { m with resetPending := m.resetPending.filter (· ≠ name) }
@@ -785,6 +810,10 @@ def monOp0 (m : Mon) (op : String) (args : List String) (impl : List String) (tr
         match conf with
         | none => if handled then "bad C14:datagram-from-unconfigured-source-was-processed" else "ok"
         | some c =>
+          -- C14: the block a datagram is attributed to is the FIRST one, in configuration order, that lists its source
+          if (toks.filter (·.startsWith "blk:")).any (fun t => (t.drop 4).toString != bytesStr c.name) then
+            "bad C14:datagram-attributed-to-a-block-that-is-not-the-first-listing-its-source"
+          else
           -- C01: a datagram of a configured peer that holds a whole request of legal size (20..4096 octets) is handed to the request
           -- handler - at either end of the range
           if !handled && pkt.length ≥ 20 && len ≥ 20 && len ≤ 4096 && pkt.length ≥ len then
